@@ -90,6 +90,13 @@ CHECKS["C07"] = dict(
     note="Trusted: the world's UDP socket model (connected sockets filter by peer, asynchronous errors surface on the next call). SOCKS5 UDP is covered by C15's scenario. HTTP/3 not simulated.",
 )
 
+CHECKS["C15"] = dict(
+    level="exploration",
+    text="Seeded search over credentials, destinations and server behaviours against a strict simulated SOCKS5 server that validates every byte the endpoint emits and misbehaves on plan (method selection, authentication status, reply code, bound-address type, truncation at every byte, byte-wise segmentation), including UDP associations with well- and malformed relayed datagrams.",
+    design="DESIGN.md section 8 (C15)",
+    note="Trusted: the harness's RFC 1928/1929 parser. HTTP/3 not simulated.",
+)
+
 NOT_YET = {
 }
 
